@@ -359,6 +359,116 @@ theorem extend_shared_ids (a b r : Atoms) (map : List (Nat × Nat))
   intro k r0 hk
   simp [adoptRow, extOffs, extBase, Offsets.zero, getElem!_pos, hk]
 
+/-! ### stretch: the label merge, indices stay inside, repeated extension with shared offsets -/
+
+/-- **merge_extra_spec.** Label union in order (self's labels first, then the other's new ones in their order, no
+    repeats), `"."` fill when padding, and placement of the other structure's values by label. -/
+theorem merge_extra_spec (mine theirs : List String) (hnd : mine.Nodup) :
+    (∀ l, l ∈ mergeLabels mine theirs ↔ l ∈ mine ∨ l ∈ theirs)
+    ∧ (mergeLabels mine theirs).Nodup
+    ∧ (mergeLabels mine theirs).take mine.length = mine
+    ∧ ((mergeLabels mine theirs).drop mine.length).Sublist theirs
+    ∧ (∀ (row : List String) (w i : Nat), row.length ≤ w → i < w → (padRow row w)[i]? = some (row.getD i "."))
+    ∧ (∀ (row : List String) (w : Nat), row.length ≤ w → (padRow row w).length = w)
+    ∧ (∀ labels row : List String, (matchRow labels theirs row).length = labels.length)
+    ∧ (∀ (labels row : List String) (i : Nat) (l : String), theirs.Nodup → labels[i]? = some l →
+        (∀ j, theirs[j]? = some l → (matchRow labels theirs row)[i]? = some (row.getD j "."))
+        ∧ (l ∉ theirs → (matchRow labels theirs row)[i]? = some ".")) := by
+  refine ⟨mem_mergeLabels mine theirs, mergeLabels_nodup mine theirs hnd, mergeLabels_take mine theirs,
+    mergeLabels_drop_sublist mine theirs, padRow_getElem?, ?_, fun labels row => matchRow_length labels theirs row, ?_⟩
+  · intro row w h; rw [padRow_length]; omega
+  · intro labels row i l hnd' hl
+    exact matchRow_placed labels theirs row hnd' i l hl
+
+/-- every term index of every kind is inside the atom list (decidable) -/
+def TermsInside (a : Atoms) : Prop :=
+  TabInside a.bonds a.atoms.length ∧ TabInside a.angles a.atoms.length
+  ∧ TabInside a.dihedrals a.atoms.length ∧ TabInside a.impropers a.atoms.length
+
+instance (a : Atoms) : Decidable (TermsInside a) := by unfold TermsInside; infer_instance
+
+/-- every converted index of an atom of the other structure is a valid index of the result -/
+theorem extend_conv_lt (a b r : Atoms) (off : Option Offsets) (map : List (Nat × Nat))
+    (h : a.extend b off map = .ok r) (x : Nat) (hx : x < b.atoms.length) :
+    ∃ y, extConv a b map x = some y ∧ y < r.atoms.length := by
+  obtain ⟨hc1, hc2⟩ := extend_conv a b r off map h
+  by_cases hm : x ∈ map.map (·.1)
+  · obtain ⟨p, hp, e⟩ := List.mem_map.mp hm
+    have hp' : (x, p.2) ∈ map := by rw [← e]; exact hp
+    refine ⟨p.2, hc1 x p.2 hp', ?_⟩
+    have := ((extend_guard a b r off map h).2 p hp).2
+    have hl := extend_atoms_length a b r off map h
+    omega
+  · obtain ⟨_, j, hj, hget⟩ := hc2 x hx hm
+    exact ⟨j, hj, (List.getElem?_eq_some_iff.mp hget).1⟩
+
+/-- **indices stay inside.** If all term indices of both structures are valid, so are all term indices of the
+    result: every new term connects atoms that exist. -/
+theorem extend_terms_inside (a b r : Atoms) (off : Option Offsets) (map : List (Nat × Nat))
+    (h : a.extend b off map = .ok r) (ha : TermsInside a) (hb : TermsInside b) : TermsInside r := by
+  have hconv := extend_conv_lt a b r off map h
+  have hlen : a.atoms.length ≤ r.atoms.length := by
+    have := extend_atoms_length a b r off map h; omega
+  have h' := h
+  rw [extend_eq_core] at h'
+  obtain ⟨_, _, eb, ea, ed, ei, _⟩ := extendCore_ok _ _ _ _ _ h'
+  obtain ⟨a1, a2, a3, a4⟩ := ha
+  obtain ⟨b1, b2, b3, b4⟩ := hb
+  cases off <;>
+  exact ⟨extendWith_inside _ _ _ _ _ _ _ eb a1 hlen (fun t ht x hx => hconv x (b1 t ht x hx)),
+         extendWith_inside _ _ _ _ _ _ _ ea a2 hlen (fun t ht x hx => hconv x (b2 t ht x hx)),
+         extendWith_inside _ _ _ _ _ _ _ ed a3 hlen (fun t ht x hx => hconv x (b3 t ht x hx)),
+         extendWith_inside _ _ _ _ _ _ _ ei a4 hlen (fun t ht x hx => hconv x (b4 t ht x hx))⟩
+
+/-- one term kind after extending twice with the same fragment and the same offset: `t1` after the first, `t2` after
+    the second extension.  The first copy is the tail of `t1`; `t2` = all of `t1` (atoms and types) followed by a second
+    copy on the newly appended atoms (indices `+ n1`) with the same types as the first; every index of `t1` is
+    `< n1`, so the copies are disjoint. -/
+def TwiceKind (t1 t2 tb : TermTable) (n1 off : Nat) : Prop :=
+  (∃ kept new1, t1.terms = kept ++ new1 ∧ new1.map (·.ty) = tb.terms.map (fun t => t.ty + off))
+  ∧ t2.terms.map Term.core
+      = t1.terms.map Term.core ++ tb.terms.map (fun t => (t.atoms.map (· + n1), t.ty + off))
+  ∧ TabInside t1 n1
+
+/-- **extend_twice.** Extending twice with the same fragment and shared offsets (the second time without identity
+    map) yields two disjoint copies of the fragment's terms with identical types, and keeps everything else. -/
+theorem extend_twice (a b r1 r2 : Atoms) (o : Offsets) (map : List (Nat × Nat))
+    (h1 : a.extend b (some o) map = .ok r1) (h2 : r1.extend b (some o) [] = .ok r2)
+    (ha : TermsInside a) (hb : TermsInside b)
+    (hne : TabNonEmpty b.bonds ∧ TabNonEmpty b.angles ∧ TabNonEmpty b.dihedrals ∧ TabNonEmpty b.impropers) :
+    TwiceKind r1.bonds r2.bonds b.bonds r1.atoms.length o.bond
+    ∧ TwiceKind r1.angles r2.angles b.angles r1.atoms.length o.angle
+    ∧ TwiceKind r1.dihedrals r2.dihedrals b.dihedrals r1.atoms.length o.dihedral
+    ∧ TwiceKind r1.impropers r2.impropers b.impropers r1.atoms.length o.improper
+    ∧ r2.atoms.length = r1.atoms.length + b.atoms.length := by
+  obtain ⟨i1, i2, i3, i4⟩ := extend_terms_inside a b r1 _ map h1 ha hb
+  obtain ⟨t1, t2, t3, t4, _⟩ := extend_terms a b r1 _ map h1
+  obtain ⟨b1, b2, b3, b4⟩ := hb
+  obtain ⟨n1, n2, n3, n4⟩ := hne
+  have h2' := h2
+  rw [extend_eq_core] at h2'
+  obtain ⟨_, _, eb, ea, ed, ei, _⟩ := extendCore_ok _ _ _ _ _ h2'
+  have hconv : ∀ x, x < b.atoms.length → extConv r1 b [] x = some (x + r1.atoms.length) := extConv_nomap r1 b
+  have first : ∀ (mine other : TermTable) (off : Nat) (conv : Nat → Option Nat),
+      ∃ kept new1, termsSpec mine other off conv = kept ++ new1
+        ∧ new1.map (·.ty) = other.terms.map (fun t => t.ty + off) := by
+    intro mine other off conv
+    refine ⟨_, _, rfl, ?_⟩
+    rw [List.map_map]; rfl
+  refine ⟨⟨?_, extendWith_sep_core _ _ _ _ _ _ _ eb i1 n1 b1 hconv, i1⟩,
+          ⟨?_, extendWith_sep_core _ _ _ _ _ _ _ ea i2 n2 b2 hconv, i2⟩,
+          ⟨?_, extendWith_sep_core _ _ _ _ _ _ _ ed i3 n3 b3 hconv, i3⟩,
+          ⟨?_, extendWith_sep_core _ _ _ _ _ _ _ ei i4 n4 b4 hconv, i4⟩, ?_⟩
+  · rw [t1]; exact first _ _ _ _
+  · rw [t2]; exact first _ _ _ _
+  · rw [t3]; exact first _ _ _ _
+  · rw [t4]; exact first _ _ _ _
+  · have := extend_atoms_length r1 b r2 _ [] h2
+    have hf : ((b.atoms.zipIdx).filter (fun q => !(([] : List (Nat × Nat)).map (·.1)).contains q.2)) = b.atoms.zipIdx :=
+      List.filter_eq_self.mpr (fun _ _ => rfl)
+    rw [hf] at this
+    simpa using this
+
 /-! ### non-vacuity: concrete structures meeting every hypothesis above -/
 
 /-- C–H–H chain with two bonds and one angle, one extra atom column -/
@@ -392,6 +502,10 @@ example : Compat exC11a exC11b := by decide
 example : ([(0, 1), (1, 0)].map (·.2) : List Nat).Nodup := by decide
 example : superseded [[1, 0], [0, 3]] ⟨[0, 1], 0, []⟩ = true ∧ superseded [[1, 0], [0, 3]] ⟨[1, 2], 0, []⟩ = false := by
   decide
+example : TermsInside exC11a ∧ TermsInside exC11b ∧ TabNonEmpty exC11b.bonds := by decide
+example : ∃ r1 r2, exC11a.extend exC11b (some ⟨2, 1, 1, 0, 0⟩) [(0, 1)] = .ok r1 ∧ r1.extend exC11b (some ⟨2, 1, 1, 0, 0⟩) [] = .ok r2
+    ∧ r2.bonds.terms.map Term.core = [([0, 1], 0), ([1, 2], 0), ([1, 3], 1), ([3, 4], 2), ([5, 6], 1), ([6, 7], 2)] :=
+  ⟨_, _, rfl, rfl, by decide⟩
 example : ∃ r, exC11a.extend exC11b (some Offsets.zero) [] = .ok r ∧ r.atoms.length = 6
     ∧ r.bonds.terms.map (·.ty) = [0, 0, 0, 1] ∧ r.bonds.coeffs = ["kA"] :=
   ⟨_, rfl, by decide, by decide, by decide⟩
